@@ -12,7 +12,7 @@ import (
 // be encoded. Contract assumed (that of encoding/json, which goccy/go-json mirrors): Token() delivers delimiters,
 // object keys and scalars in order; Decode(v)/Unmarshal(data, v) hand the raw bytes of the next value to v's
 // UnmarshalJSON; a JSON null for a pointer element of a slice leaves the pointer nil; numbers decoded into
-// interface{} are float64, strings are unescaped. Text read: RFC 8259 without \u escapes and without exponent
+// interface{} are float64, strings are unescaped; a read error of the underlying reader ends the input and is not reported (goccy's behaviour). Text read: RFC 8259 without \u escapes and without exponent
 // handling beyond strconv.ParseFloat; blanks between tokens are skipped. goccy's json.Token / json.Delim are aliases
 // of encoding/json's, so the type assertions in yq's code see the same types.
 
@@ -30,9 +30,11 @@ func (d *verifJSONDecoder) fill() error {
 		return nil
 	}
 	d.read = true
-	b, err := io.ReadAll(d.src)
+	// a failed read ends the input, as for goccy/go-json (internal/decoder/stream.go read(): any error other than
+	// io.EOF just stops reading and is dropped) - what arrived before the failure is parsed
+	b, _ := io.ReadAll(d.src)
 	d.data = b
-	return err
+	return nil
 }
 
 func (d *verifJSONDecoder) skipBlanksAndSeparators() {
